@@ -131,6 +131,11 @@ def run(ctx):
             if k < 0.35: a += F(((p, 1), (p, 0)), dyc(rng))
             elif k < 0.7: a += F(((max(p, q), 1), (min(p, q), 1), (max(p, q), 0), (min(p, q), 0)), dyc(rng))
             else: a += F(((p, 1), (q, 0)), dyc(rng))
+        if i % 3 == 2 and nm >= 3:
+            # the property quantifies over ALL pairs of two-body number-conserving operators: a general normal-ordered
+            # two-body term p^ q^ r s in the first argument (outside the documented fast-path family, still computed)
+            cr = sorted(rng.sample(range(nm), 2), reverse=True); an = sorted(rng.sample(range(nm), 2), reverse=True)
+            a += F(((cr[0], 1), (cr[1], 1), (an[0], 0), (an[1], 0)), dyc(rng))
         b = of.normal_ordered(mk_fermion(of, {tuple([(rng.randrange(nm), 1)] * 0 + [(x, 1) for x in rng.sample(range(nm), k2)] + [(x, 0) for x in rng.sample(range(nm), k2)]): dyc(rng)
                                              for k2 in [rng.choice([1, 2]) for _ in range(rng.randint(1, 3))]}))
         with warnings.catch_warnings():
